@@ -240,6 +240,10 @@ package socket
 
 // conn.Transport: registers a fresh index, and on every return path that gives up (context done)
 // removes its own entry again: no pending entry is left behind.
+// a pending call can always be woken: by its context, and by its own result channel (a response, or
+// the error every pending call is sent when the connection closes), in both waiting stages
+//@ rule select_arms (*conn).Transport done=1 recv=resultChan prop=C10
+
 //@ func (*conn).Transport
 //@   prop C09 C10
 //@   nopanic
